@@ -47,7 +47,7 @@ def generate(tier, seed):
     for k in range(nmal):
         cases.append({"kind": "mal_rand", "n": per, "seed": "%d:mal:%d" % (seed, k), "cost": 2})
     # pipeline: serial rewrites
-    npipe = 12 if tier == "quick" else 120
+    npipe = 48 if tier == "quick" else 1200
     for k in range(npipe):
         cases.append({"kind": "serial", "seed": "%d:serial:%d" % (seed, k), "cost": 30})
     return cases
@@ -250,15 +250,27 @@ def run_serial_case(case, viol, counts):
     from .. import obs, pdbio, sources
     rng = random.Random(case["seed"])
     recs = sources.random_small_structure(rng)
+    if rng.random() < 0.4:
+        # several MODELs / alternate locations (atoms are copied between conformations)
+        from .. import multiconf
+        recs, _d = multiconf.build(rng, base=recs)
     base = obs.run_single(pdbio.dump(recs))
-    mode = rng.choice(("random", "descending", "duplicates", "big", "negative"))
+    mode = rng.choice(("random", "descending", "duplicates", "big", "negative", "restart-per-model", "shuffled"))
+    shuffled = list(range(1, len(pdbio.atoms(recs)) + 1))
+    rng.shuffle(shuffled)
     out = []
     n_at = len(pdbio.atoms(recs))
     k = 0
     for r in recs:
+        if r.raw is not None and r.tag == "MODEL " and mode == "restart-per-model":
+            k = 0
         if r.raw is None:
             r = r.copy()
-            if mode == "random":
+            if mode == "restart-per-model":
+                r.serial = ref.encode(1 + k, 5)
+            elif mode == "shuffled":
+                r.serial = ref.encode(shuffled[k % len(shuffled)], 5)
+            elif mode == "random":
                 r.serial = ref.encode(rng.randint(-9999, 87440031), 5)
             elif mode == "descending":
                 r.serial = ref.encode(87440031 - 37 * k, 5)
@@ -278,7 +290,7 @@ def run_serial_case(case, viol, counts):
             viol.append({"cls": "serial-influences-result",
                          "msg": "exception differs: %r vs %r (mode %s)" % (base.exc, edited.exc, mode)})
     else:
-        diffs = obs.compare_confs(base.rec["confs"]["AVR"], edited.rec["confs"]["AVR"], tol=0.0)
+        diffs = obs.compare_runs(base, edited, tol=0.0)
         if base.text is not None and obs.strip_date(base.text) != obs.strip_date(edited.text or ""):
             diffs.append(("pka-text-differs",))
         if diffs:
